@@ -80,6 +80,36 @@ def may_release_sets(m):
     return out
 
 
+def destroys_elements_sets(m):
+    """class qname -> set of method simple names that run the destructor of stored elements (Memory::Dispose on the storage),
+    directly or through the class's own methods: a reference into memory OWNED BY an element dies with them"""
+    out = {}
+    for cls in OWNERS:
+        methods = [f for f in m.functions if not f.inst and f.cls == cls]
+        direct = set()
+        calls_own = {}
+        names = set(f.name for f in methods)
+        for f in methods:
+            own = set()
+            for c in astq.calls(f):
+                nm = f.call_simple_name(c)
+                if nm == "Dispose":
+                    direct.add(f.name)
+                rc = f.call_receiver(c)
+                if nm in names and (rc is None or f.nodes[f.strip(rc)]["k"] == "CXXThisExpr"):
+                    own.add(nm)
+            calls_own[f.name] = calls_own.get(f.name, set()) | own
+        changed = True
+        while changed:
+            changed = False
+            for nm, own in calls_own.items():
+                if nm not in direct and own & direct:
+                    direct.add(nm)
+                    changed = True
+        out[cls] = direct
+    return out
+
+
 def param_release_summaries(m, rel):
     """(function qname, nparams) -> set of parameter indices whose container may be released by the function
     (free/static functions and methods taking containers by mutable reference); fixpoint over the model"""
@@ -230,7 +260,7 @@ def owner_of_type(t):
     return None
 
 
-def analyse_fn(m, f, rel, summ=None, fsumm=None, alias_params=False, acc=None, outp=None):
+def analyse_fn(m, f, rel, summ=None, fsumm=None, alias_params=False, acc=None, outp=None, destroys=None):
     """returns list of (node id, pointer name, container text, releasing call text)"""
     if not f.cfg:
         return [], 0
@@ -288,6 +318,46 @@ def analyse_fn(m, f, rel, summ=None, fsumm=None, alias_params=False, acc=None, o
                 ptr_locals[d["d"]] = d["n"]
             elif d.get("ref") and "d" in d and d.get("init", -1) >= 0 and f.nodes[f.strip(d["init"])]["k"] == "ArraySubscriptExpr":
                 ptr_locals[d["d"]] = d["n"]   # reference to an element of a container's storage
+    # references / pointers obtained THROUGH a borrowed element pointer (tag_bit->GetLoopTag(), item->Value.array_ ...): they point
+    # into the element or into memory the element owns, and die when the element is destroyed
+    derived = {}
+    changed_ = True
+    while changed_:
+        changed_ = False
+        for i in astq.nodes_of(f, "DeclStmt"):
+            for d in f.nodes[i]["decls"]:
+                if "d" not in d or d["d"] in derived or d.get("init", -1) < 0 or not (d.get("ref") or d.get("tk") == "ptr"):
+                    continue
+                if d["d"] in ptr_locals and not d.get("ref"):
+                    continue
+                root = f.strip_casts(d["init"])
+                via = None
+                hops = 0
+                while hops < 8:
+                    hops += 1
+                    rn = f.nodes[root]
+                    if rn["k"] in ("CXXMemberCallExpr", "CallExpr"):
+                        rc_ = f.call_receiver(root)
+                        if rc_ is None:
+                            break
+                        root = f.strip_casts(rc_)
+                        continue
+                    if rn["k"] in ("MemberExpr", "CXXDependentScopeMemberExpr") and rn.get("ch"):
+                        root = f.strip_casts(rn["ch"][0])
+                        continue
+                    if rn["k"] == "UnaryOperator" and rn["op"] in ("*", "&") and rn.get("ch"):
+                        root = f.strip_casts(rn["ch"][0])
+                        continue
+                    if rn["k"] == "ParenExpr":
+                        root = f.strip_casts(rn["ch"][0])
+                        continue
+                    if rn["k"] == "DeclRefExpr" and (rn.get("d") in ptr_locals or rn.get("d") in derived) and root != f.strip_casts(d["init"]):
+                        via = rn["d"]
+                    break
+                if via is not None:
+                    derived[d["d"]] = via
+                    ptr_locals.setdefault(d["d"], d["n"])
+                    changed_ = True
     seed = set()
     if alias_params and f.cls in rel and not f.is_static:
         # a raw element pointer handed to a method of an owning container may point into that container's own storage
@@ -299,11 +369,11 @@ def analyse_fn(m, f, rel, summ=None, fsumm=None, alias_params=False, acc=None, o
             base_t = p_["t"].replace("const ", "").replace("&", "").replace("*", "").strip()
             if p_.get("ptr") and p_.get("pconst") and any(e_ in p_["t"] for e_ in elem):
                 ptr_locals[p_["d"]] = p_["n"]
-                seed.add((p_["d"], "this", "valid", ""))
+                seed.add((p_["d"], "this", "valid", "", frozenset()))
             elif p_.get("ref") and base_t in elem and p_.get("tk") not in ("uint", "sint", "bool", "char"):
                 # a reference to an element type may refer to an element of this very container (a += a[0])
                 ptr_locals[p_["d"]] = p_["n"]
-                seed.add((p_["d"], "this", "valid", ""))
+                seed.add((p_["d"], "this", "valid", "", frozenset()))
     # a container of the receiver's own class taken by const reference may be the receiver itself (a += a, h += h)
     alias_of = {}
     if alias_params and f.cls in rel and not f.is_static:
@@ -314,13 +384,13 @@ def analyse_fn(m, f, rel, summ=None, fsumm=None, alias_params=False, acc=None, o
     if not ptr_locals:
         return [], 0
 
-    # state: frozenset of (ptr decl id, container key, status, releasing-call text)
+    # state: frozenset of (ptr decl id, container key, status, releasing-call text, flag facts of the paths that gave this status)
     blocks = f.blocks()
     entry = f.cfg["entry"]
     states = {entry: frozenset(seed)}
     work = [entry]
     findings = {}
-    borrows = set((ptr_locals[d], k) for (d, k, _, _) in seed)
+    borrows = set((ptr_locals[d], k) for (d, k, _, _, _) in seed)
 
     def releases(e):
         """list of container keys whose storage may be released by this element"""
@@ -382,9 +452,28 @@ def analyse_fn(m, f, rel, summ=None, fsumm=None, alias_params=False, acc=None, o
             pn = f.nodes[par] if par is not None else None
             is_target = pn is not None and pn["k"] == "BinaryOperator" and pn["op"] == "=" and f.strip(pn["ch"][0]) == nid
             if not is_target:
-                for (d, key, status, why) in st:
+                for (d, key, status, why, _fc) in st:
                     if d == n["d"] and status == "stale":
                         findings[(nid)] = (n["n"], key, why)
+        # boolean locals set to a literal: every fact of this path now carries flag == literal (one step of path sensitivity:
+        # "dropped, skip = true ... if (!skip) use")
+        fl_d, fl_v = None, None
+        if k == "DeclStmt":
+            for d in n["decls"]:
+                if d.get("tk") == "bool" and "d" in d and d.get("init", -1) >= 0:
+                    v_ = f.const_value(d["init"])
+                    fl_d, fl_v = d["d"], (bool(v_) if v_ is not None else None)
+        elif k == "BinaryOperator" and n["op"] == "=":
+            lh_ = f.nodes[f.strip(n["ch"][0])]
+            if lh_["k"] == "DeclRefExpr" and lh_.get("tk") == "bool" and lh_.get("dk") == "var":
+                v_ = f.const_value(n["ch"][1])
+                fl_d, fl_v = lh_["d"], (bool(v_) if v_ is not None else None)
+        elif k in ("CompoundAssignOperator", "UnaryOperator") and n.get("op") in ("|=", "&=", "^=", "++", "--") and n.get("ch"):
+            lh_ = f.nodes[f.strip(n["ch"][0])]
+            if lh_["k"] == "DeclRefExpr" and lh_.get("tk") == "bool" and lh_.get("dk") == "var":
+                fl_d, fl_v = lh_["d"], None
+        if fl_d is not None:
+            st = {(d, kk, s_, w, frozenset([x for x in fc if x[0] != fl_d] + ([(fl_d, fl_v)] if fl_v is not None else []))) for (d, kk, s_, w, fc) in st}
         if k == "DeclStmt":
             for d in n["decls"]:
                 if d.get("d") in ptr_locals:
@@ -392,29 +481,34 @@ def analyse_fn(m, f, rel, summ=None, fsumm=None, alias_params=False, acc=None, o
                     if d.get("init", -1) >= 0:
                         src = borrow_source(d["init"])
                         if src:
-                            st.add((d["d"], src[0], "valid", ""))
+                            st.add((d["d"], src[0], "valid", "", frozenset()))
                             borrows.add((d["n"], src[0]))
+                        elif d["d"] in derived:
+                            for x in list(st):
+                                if x[0] == derived[d["d"]]:
+                                    st.add((d["d"], x[1], x[2], x[3], x[4]))
+                                    borrows.add((d["n"], x[1]))
                         else:
                             # copy of another borrowed pointer
                             s2 = f.nodes[f.strip_casts(d["init"])]
                             if s2["k"] == "DeclRefExpr":
                                 for x in list(st):
                                     if x[0] == s2.get("d"):
-                                        st.add((d["d"], x[1], x[2], x[3]))
+                                        st.add((d["d"], x[1], x[2], x[3], x[4]))
         elif k == "BinaryOperator" and n["op"] == "=":
             lhs = f.nodes[f.strip(n["ch"][0])]
             if lhs["k"] == "DeclRefExpr" and lhs.get("d") in ptr_locals:
                 st = {x for x in st if x[0] != lhs["d"]}
                 src = borrow_source(n["ch"][1])
                 if src:
-                    st.add((lhs["d"], src[0], "valid", ""))
+                    st.add((lhs["d"], src[0], "valid", "", frozenset()))
                     borrows.add((lhs["n"], src[0]))
                 else:
                     s2 = f.nodes[f.strip_casts(n["ch"][1])]
                     if s2["k"] == "DeclRefExpr":
                         for x in list(st):
                             if x[0] == s2.get("d"):
-                                st.add((lhs["d"], x[1], x[2], x[3]))
+                                st.add((lhs["d"], x[1], x[2], x[3], x[4]))
         if k in ("CallExpr", "CXXMemberCallExpr") and f.call_simple_name(nid) in outp:
             # find(index, ...): the link pointer handed back through a reference parameter points into the table
             key, owner = container_key(f.call_receiver(nid))
@@ -425,20 +519,26 @@ def analyse_fn(m, f, rel, summ=None, fsumm=None, alias_params=False, acc=None, o
                         an = f.nodes[f.strip(cargs[j])]
                         if an["k"] == "DeclRefExpr" and an.get("d") in ptr_locals:
                             st = {x for x in st if x[0] != an["d"]}
-                            st.add((an["d"], key, "valid", ""))
+                            st.add((an["d"], key, "valid", "", frozenset()))
                             borrows.add((an["n"], key))
         if k in ("CallExpr", "CXXMemberCallExpr") and f.call_simple_name(nid) == "Deallocate":
             a = f.call_args(nid)
             a0 = f.nodes[f.strip_casts(a[0])] if a else {}
             if a0.get("k") == "DeclRefExpr" and a0.get("d") in ptr_locals:
                 keys = {x[1] for x in st if x[0] == a0["d"]}
-                st = {(d, kk, "stale" if (d == a0["d"]) else s_, f.text(nid) if d == a0["d"] else w) for (d, kk, s_, w) in st}
+                st = {(d, kk, "stale" if (d == a0["d"]) else s_, f.text(nid) if d == a0["d"] else w, fc) for (d, kk, s_, w, fc) in st}
                 if not keys:
-                    st.add((a0["d"], "?", "stale", f.text(nid)))
+                    st.add((a0["d"], "?", "stale", f.text(nid), frozenset()))
+        if destroys and derived and k == "CXXMemberCallExpr":
+            nm_ = f.call_simple_name(nid)
+            key, owner = container_key(f.call_receiver(nid))
+            if key and owner and nm_ in destroys.get(owner, ()) and nm_ not in rel.get(owner, ()):
+                why = f.text(nid) + " (destroys stored elements)"
+                st = {(d, kk, "stale" if (kk == key and d in derived) else s, why if (kk == key and d in derived and s == "valid") else w, fc) for (d, kk, s, w, fc) in st}
         if k in ("CallExpr", "CXXMemberCallExpr", "CXXOperatorCallExpr", "CompoundAssignOperator", "BinaryOperator"):
             for (key, why) in releases(e):
                 st = {(d, kk, "stale" if (kk == key or alias_of.get(kk) == key) else s,
-                       (why + (" (when `%s` is the object itself)" % kk if kk != key else "")) if (kk == key or alias_of.get(kk) == key) and s == "valid" else w) for (d, kk, s, w) in st}
+                       (why + (" (when `%s` is the object itself)" % kk if kk != key else "")) if (kk == key or alias_of.get(kk) == key) and s == "valid" else w, fc) for (d, kk, s, w, fc) in st}
         return frozenset(st)
 
     it = 0
@@ -451,11 +551,21 @@ def analyse_fn(m, f, rel, summ=None, fsumm=None, alias_params=False, acc=None, o
         for e in blocks[bid]["el"]:
             st = step(st, e, False)
         for (s, kind, payload) in dataflow.successors(f, blocks[bid]):
+            out_st = st
+            if kind in ("true", "false") and payload is not None:
+                c_ = f.strip(payload)
+                want = kind == "true"
+                while f.nodes[c_]["k"] == "UnaryOperator" and f.nodes[c_]["op"] == "!":
+                    c_ = f.strip(f.nodes[c_]["ch"][0])
+                    want = not want
+                cn_ = f.nodes[c_]
+                if cn_["k"] == "DeclRefExpr" and cn_.get("tk") == "bool" and cn_.get("dk") == "var":
+                    out_st = frozenset(x for x in st if (cn_["d"], not want) not in x[4])
             if s not in states:
-                states[s] = st
+                states[s] = out_st
                 work.append(s)
             else:
-                new = states[s] | st
+                new = states[s] | out_st
                 if new != states[s]:
                     states[s] = new
                     work.append(s)
@@ -474,13 +584,15 @@ def rule_borrow(ctx, m, files, extra_fns=(), rid="BORROW", alias_params=False):
     summ = param_release_summaries(m, rel)
     fsumm = field_release_summaries(m, rel)
     acc, outp = interior_accessors(m)
+    destroys = destroys_elements_sets(m)
+    r.notes.append("element-destroying methods: " + "; ".join("%s: %s" % (k.split("::")[-1], ",".join(sorted(v))) for k, v in sorted(destroys.items()) if v))
     r.notes.append("interior-pointer accessors: " + ",".join(sorted(acc)))
     fns = [f for f in m.functions if not f.inst and any(f.file.endswith(x) for x in files)]
     for q in extra_fns:
         fns += m.fns(q, pattern=True, required=False)
     total_borrows = 0
     for f in fns:
-        found, nb = analyse_fn(m, f, rel, summ, fsumm, alias_params, acc, outp)
+        found, nb = analyse_fn(m, f, rel, summ, fsumm, alias_params, acc, outp, destroys)
         total_borrows += nb
         if nb:
             ctx.note_fn(f)
